@@ -29,7 +29,8 @@ VARIABLES tid, l, st, bad, ok,
           mgr,     \* per slot: the HistoryManagers of the open contexts, as numbered by the hook observer
           dig      \* per slot: digest of the RAW solver problem (every column, row, coefficient, objective
                    \* coefficient and the direction, names sorted) observed at the Enter of each open context
-vars == <<tid, l, st, bad, ok, mgr, dig>>
+          ,prevdig  \* per slot: that digest after the previous event ("" = no model)
+vars == <<tid, l, st, bad, ok, mgr, dig, prevdig>>
 
 \* ------------------------------------------------------------ observed slot -> content
 PosIn(seq, x) == IF \E k \in 1..Len(seq) : seq[k] = x THEN (CHOOSE k \in 1..Len(seq) : seq[k] = x) - 1 ELSE Missing
@@ -204,6 +205,7 @@ Init ==
   /\ st = InitState
   /\ mgr = [s \in Slots |-> <<>>]
   /\ dig = [s \in Slots |-> <<>>]
+  /\ prevdig = [s \in Slots |-> ""]
 
 ExpRet(op, S, res) ==
   IF op.a = "GetMedium" /\ IsModel(S.m[op.s]) THEN [ids |-> {}, n |-> 0, med |-> MediumOf(S.m[op.s])]
@@ -274,7 +276,18 @@ Next ==
                        /\ Len(dig[os]) > 0 /\ Len(dig[os]) = Len(st.ctx[os]) /\ ~st.taint[os] /\ ~st.sw[os]
                        /\ ev.obs[os].lp.dig # dig[os][Len(dig[os])]
                     THEN SlotTag(os, {"ExitRestoresLP"}) ELSE {}
-         newBad == (nowBad \ bad) \cup hookBad \cup digBad
+         \* the slots whose solver problem this operation may change; every other model, and the model itself under an
+         \* analysis or a read-only call, must keep its raw solver problem (C13 / C12 at the level of the raw problem:
+         \* also what the content comparison cannot see, e.g. coefficients of user-added constraints)
+         changing == IF op.a \in {"Copy", "MergeNew", "Prune", "AddArith"} THEN {op.t} ELSE {os}
+         nowdig == [s \in Slots |-> IF ev.obs[s].present THEN ev.obs[s].lp.dig ELSE ""]
+         stutter == op.a \in {"Analyze", "Query", "GetMedium", "RxnArith", "SaveDoc", "Init"}
+         lpBad == UNION {IF prevdig[s] # "" /\ nowdig[s] # prevdig[s] /\ ev.raises # "skip"
+                            /\ (s \notin changing \/ stutter)
+                         THEN SlotTag(s, {IF s \notin changing THEN "SlotsIndependentLP"
+                                          ELSE IF op.a = "Analyze" THEN "AnalysisLeavesLP" ELSE "ReadOnlyLeavesLP"})
+                         ELSE {} : s \in Slots}
+         newBad == (nowBad \ bad) \cup hookBad \cup digBad \cup lpBad
          \* the state to continue from: what the implementation really is (trees carried from exp)
          N == [m |-> [s \in Slots |-> ObsContent(ev.obs[s], E.m[s])],
                ctx |-> [s \in Slots |-> IF ev.obs[s].present /\ ev.obs[s].ctx = Len(E.ctx[s]) THEN E.ctx[s]
@@ -299,6 +312,7 @@ Next ==
                                  ELSE IF s = os /\ op.a = "Exit" /\ ev.raises # "skip" /\ Len(dig[s]) > 0
                                       THEN SubSeq(dig[s], 1, Len(dig[s]) - 1)
                                  ELSE dig[s]]
+     /\ prevdig' = [s \in Slots |-> IF ev.obs[s].present THEN ev.obs[s].lp.dig ELSE ""]
      /\ st' = N
      /\ ok' = \A s \in Slots : (IsModel(N.m[s]) => RulesInSync(ev.obs[s], N.m[s]))
   /\ l' = l + 1
